@@ -55,7 +55,11 @@ func drawConfig(t *rapid.T, o simOpts) sim.Config {
 		cfg.WRot = rapid.IntRange(1, n-1).Draw(t, "wrot")
 	}
 	// membership change: one identity is not in the committee of one height (it moves on by sync only, and re-joins afterwards)
-	if n >= 5 && o.Focus != "C05" && rapid.IntRange(0, 5).Draw(t, "absent?") == 0 {
+	absentOneIn := 5
+	if o.Focus == "C17" {
+		absentOneIn = 1 // every second case
+	}
+	if n >= 5 && o.Focus != "C05" && rapid.IntRange(0, absentOneIn).Draw(t, "absent?") == 0 {
 		cfg.Absent = []int{rapid.IntRange(0, n-1).Draw(t, "absent")}
 		cfg.AbsentH = uint64(rapid.IntRange(1, int(cfg.MaxHeight)).Draw(t, "absenth"))
 	}
